@@ -452,3 +452,13 @@ UNITS = [dict(
                  "the stale destination content and the spare pixel stay symbolic; i32x1 horizontal additionally for ALL pixel values in the thorough tier"],
     kani=dict(functions=FUNCTIONS, modules=[SUPPORT, FLT] + MODS, harnesses=HARNESSES),
 )]
+
+
+# --- tiers / memory classes set by the lead (measured by the builder: kani-driver memory at the end of the harness) -----------------
+for _u in UNITS:
+    for _h in _u["kani"]["harnesses"]:
+        if _h["name"] == "k10_vertical_u16_x2_w2_tail_only":
+            _h["tier"] = "thorough"                      # 10 GB of driver memory: not in the quick tier
+        if _h["name"] == "k10_vertical_u16_x4_w5_chunk_and_tail_grid":
+            _h["mem"] = "huge"                           # 24 GB of driver memory, 12 min: runs alone
+            _h["timeout"] = 2400
